@@ -295,6 +295,28 @@ where
         if got != want {
             return Err(format!("iteration yields {got:?}, reference {want:?}"));
         }
+        // However the iterator is consumed: nth / skip / step_by / count / last / size_hint must agree
+        // with plain iteration (an iterator may override them).
+        let n = want.len();
+        let probes: Vec<usize> = if n <= 12 { (0..=n + 1).collect() } else { vec![0, 1, 2, n / 2, n - 2, n - 1, n, n + 1] };
+        for k in probes {
+            let nth = deque.iter().nth(k).map(V::parts);
+            let skipped: Vec<(u8, Option<u8>)> = deque.iter().skip(k).map(V::parts).collect();
+            if nth != want.get(k).copied() || skipped[..] != want[k.min(n)..] {
+                return Err(format!("iter().nth({k}) = {nth:?} and iter().skip({k}) yields {skipped:?}, plain iteration yields {want:?}"));
+            }
+        }
+        let stepped: Vec<(u8, Option<u8>)> = deque.iter().step_by(2).map(V::parts).collect();
+        let want_stepped: Vec<(u8, Option<u8>)> = want.iter().copied().step_by(2).collect();
+        let (lo, hi) = deque.iter().size_hint();
+        if stepped != want_stepped || deque.iter().count() != n || deque.iter().last().map(V::parts) != want.last().copied() || lo > n || hi.map(|h| h < n).unwrap_or(false) {
+            return Err(format!(
+                "iter().step_by(2) yields {stepped:?}, count() {}, last() {:?}, size_hint {:?}; plain iteration yields {want:?}",
+                deque.iter().count(),
+                deque.iter().last().map(V::parts),
+                (lo, hi)
+            ));
+        }
         let first = deque.first().map(V::parts);
         let last = deque.last().map(V::parts);
         let want_first = model.map.iter().next().map(|(k, v)| (*k, Some(*v)));
@@ -727,7 +749,7 @@ fn replay(_ctx: &Ctx, _group: &str, case: &Value) -> CaseResult {
 pub fn def() -> PropDef {
     PropDef {
         id: "C16",
-        rule: "Cases are operation sequences (push with increasing keys, push of an already-erased item, push of a non-increasing key which must panic, find, remove, pop_first, pop_last, clear) on SortedDeque, for (key, Option<value>) pairs over Vec and SmallVec<[_;4]> for a whole-item SortedDequeItem type over Vec, for (i64, Option<u32>) pairs with negative and positive keys far apart over SmallVec<[_;2]>, and for a user-supplied comparator and eraser (reverse order on the stored keys, erasure as a flag) over Vec, over a key universe of 8 (long-runs: 20..250 keys pushed, a contiguous run of the middle keys erased in ascending / descending / shuffled order plus scattered erasures, then pops at both ends and a random tail, over a universe of 250). After every step iteration order, first, last, is_empty and find for every key of the universe are compared with a BTreeMap. Part 1 enumerates all sequences over a 12-symbol alphabet up to max_depth; part 2 draws random sequences of up to 150 operations. Non-trivial: an end removal (pop or remove) whose neighbour in insertion order is a tombstone left by a middle removal, or a find of a key lying between two tombstones. Distinct: by enumeration for part 1, by hash of the serialised case for part 2.",
+        rule: "Cases are operation sequences (push with increasing keys, push of an already-erased item, push of a non-increasing key which must panic, find, remove, pop_first, pop_last, clear) on SortedDeque, for (key, Option<value>) pairs over Vec and SmallVec<[_;4]> for a whole-item SortedDequeItem type over Vec, for (i64, Option<u32>) pairs with negative and positive keys far apart over SmallVec<[_;2]>, and for a user-supplied comparator and eraser (reverse order on the stored keys, erasure as a flag) over Vec, over a key universe of 8 (long-runs: 20..250 keys pushed, a contiguous run of the middle keys erased in ascending / descending / shuffled order plus scattered erasures, then pops at both ends and a random tail, over a universe of 250). After every step iteration order (through plain iteration and through nth / skip / step_by / count / last / size_hint), first, last, is_empty and find for every key of the universe are compared with a BTreeMap. Part 1 enumerates all sequences over a 12-symbol alphabet up to max_depth; part 2 draws random sequences of up to 150 operations. Non-trivial: an end removal (pop or remove) whose neighbour in insertion order is a tombstone left by a middle removal, or a find of a key lying between two tombstones. Distinct: by enumeration for part 1, by hash of the serialised case for part 2.",
         assumptions: &[
             "whole-item convention is only exercised with distinct keys (erasing must not reorder an item relative to its neighbours)",
             "harness built with debug assertions on",
